@@ -133,7 +133,7 @@ PROPS = {
         level="model_checking",
         level_text='bounded model checking by symbolic execution: on every feasible path of Build + ParseString over a symbolic token stream: no panic; nil error implies non-nil AST; an error implements participle.Error, comes with a non-nil partial AST, its position is the position of a token of the input, an UnexpectedTokenError carries the token at that position, and Error() is the documented [file:]line:col: message rendering',
         level_note='trusted: the reference semantics (own tag parser + evaluator written from the README, validated natively against the implementation on 960k random cases while designing), the reflect model of the executor (sampled paths are replayed natively with the real reflect on every run), z3; bounds: catalogue grammars x streams of <= 5 (quick) / <= 6 (thorough) tokens of arbitrary type and arbitrary one-byte text, lookahead an unconstrained 64-bit int, AllowTrailing symbolic',
-        runs=[dict(pkg=".", files=["root/zz_verif_ref.go", "root/zz_verif_ggcore.go", "root/zz_verif_parse.go", "root/zz_verif_grammars.go", "root/zz_verif_gengrammar.go", "root/zz_verif_entry.go"], harness='^VH_C06_', reach={'VH_C06_Seq': ['ok', 'error', 'unexpected-token'], 'VH_C06_EmptyTok': ['ok', 'error'], 'VH_C06_Bytes': ['ok', 'lex-error', 'parse-error'], 'VH_C06_LongError': ['lex-error'], 'VH_C06_DefaultLexer': ['ok', 'lex-error', 'parse-error'], 'VH_C06_Unquote': ['error'], 'VH_C06_BytesMB': ['ok', 'error']})],
+        runs=[dict(pkg=".", files=["root/zz_verif_ref.go", "root/zz_verif_ggcore.go", "root/zz_verif_parse.go", "root/zz_verif_grammars.go", "root/zz_verif_gengrammar.go", "root/zz_verif_entry.go"], harness='^VH_C06_', reach={'VH_C06_Seq': ['ok', 'error', 'unexpected-token'], 'VH_C06_EmptyTok': ['ok', 'error'], 'VH_C06_Bytes': ['ok', 'lex-error', 'parse-error'], 'VH_C06_LongError': ['lex-error'], 'VH_C06_DefaultLexer': ['ok', 'lex-error', 'parse-error'], 'VH_C06_Unquote': ['error'], 'VH_C06_BytesMB': ['ok', 'error'], 'VH_C06_PtrMixin': ['ok', 'error']})],
         bounds={'quick': 'streams of <= 5 tokens + EOF, token types arbitrary 64-bit values != EOF, token texts arbitrary single bytes, lookahead any int (negative = unlimited), AllowTrailing on/off; symbols A,B,C,Ws,Cm (numbered next to EOF, and in one harness of C01/C10 far from it: -64, -70, and with positive values); plus 48 generated grammars (deterministic generator over every operator of the tag language, <= 3 productions, reflect.StructOf types through the real Build) x streams of <= 4 tokens (every twelfth grammar is one level deeper - repetitions inside captures, negated groups - and gets streams of <= 3)', 'thorough': 'as quick with streams of <= 6 tokens; 200 generated grammars x streams of <= 5 tokens (<= 4 for the deeper ones)'},
         outside='stack depth and running time on long or deeply nested inputs (a bounded symbolic run says nothing about them); lexing failures through the real lexers (covered by C03/C07 at the lexer level); grammars outside the catalogue; user Parseable/Capture code',
         assumptions=["text/scanner, strconv, unicode are executed from SSA; reflect is modelled over go/types; fmt by a small printf model",
